@@ -194,7 +194,8 @@ impl WeightedSampler {
         let mut weighted_keys: Vec<(f64, NodeId)> = candidates
             .iter()
             .map(|(node_id, weight)| {
-                if *weight <= 0.0 {
+                // `!(w > 0.0)` also refuses NaN, which `w <= 0.0` lets through
+                if !(*weight > 0.0) {
                     return Err(PlacementError::InvalidWeight {
                         node_id: node_id.clone(),
                         weight: *weight,
@@ -205,15 +206,17 @@ impl WeightedSampler {
                 // Generate uniform random value
                 let u = fastrand::f64();
 
-                // Calculate weighted key: k_i = u^(1/w_i)
-                let key = u.powf(1.0 / weight);
+                // Weighted key of Efraimidis-Spirakis sampling, k_i = u^(1/w_i), taken in
+                // log space: ln(u)/w_i orders identically but does not collapse to 0.0
+                // (tiny weights) or 1.0 (huge weights), where every key would tie.
+                let key = u.ln() / weight;
 
                 Ok((key, node_id.clone()))
             })
             .collect::<PlacementResult<Vec<_>>>()?;
 
         // Sort by key in descending order and take top k
-        weighted_keys.sort_by(|a, b| b.0.partial_cmp(&a.0).unwrap_or(std::cmp::Ordering::Equal));
+        weighted_keys.sort_by(|a, b| b.0.total_cmp(&a.0));
 
         Ok(weighted_keys
             .into_iter()
